@@ -106,6 +106,10 @@ def run_exh_pairs(ctx, case):
     ctx.note(klass=f'n={n}', desc=['pairs', n, case['ia']], nontrivial=(a[0] != 0 or 'Y' in a[1]))
     A = nq.gate.PauliOperator.from_F2(np.array(ref.pauli_to_F2(a), dtype=np.uint8))
     DA = ref.pauli_dense(a) if n <= 2 else None
+    # the same OBJECT on both sides (an all-pairs loop over a list of operators reaches p @ p)
+    sq = A @ A
+    ctx.require(ref.pauli_from_F2(sq.F2) == ref.pauli_mul(a, a), 'matmul of an operator object with itself', f'{a}^2 -> {ref.pauli_from_F2(sq.F2)} want {ref.pauli_mul(a, a)}')
+    ctx.require(bool(A.commutate_with(A)), 'an operator commutes with itself (same object)')
     for b in allp:
         B = nq.gate.PauliOperator.from_F2(np.array(ref.pauli_to_F2(b), dtype=np.uint8))
         c = A @ B
@@ -235,7 +239,13 @@ def run_randpauli(ctx, case):
     nq = _nq()
     n, flag, seed = case['n'], case['flag'], case['seed']
     ctx.note(klass=f'flag={flag}', desc=['randpauli', n, flag], nontrivial=flag is not None, labels=[f'flag={flag}'])
-    p = nq.random.rand_pauli(n, is_hermitian=flag, seed=seed)
+    # the flag also as it comes out of numpy code (np.bool_) or as 0/1: the function accepts every value equal to True / False
+    flag_arg = flag
+    if flag is not None:
+        form = seed % 3
+        flag_arg = [flag, np.bool_(flag), int(flag)][form]
+        ctx.label(['flag as bool', 'flag as np.bool_', 'flag as 0/1'][form])
+    p = nq.random.rand_pauli(n, is_hermitian=flag_arg, seed=seed)
     ctx.require(isinstance(p, nq.gate.PauliOperator) and p.num_qubit == n and p.F2.dtype == np.uint8 and set(p.F2.tolist()) <= {0, 1},
                 'rand_pauli returns PauliOperator')
     k, s = ref.pauli_from_F2(p.F2)
